@@ -749,7 +749,7 @@ func astFromValue(value interface{}, ttype Type) ast.Value {
 	// Convert a Golang map to a GraphQL input object literal, field by
 	// field in name order, using the declared field types.
 	if ttype, ok := ttype.(*InputObject); ok {
-		if valueMap, ok := value.(map[string]interface{}); ok {
+		if valueVal.Kind() == reflect.Map && valueVal.Type().Key().Kind() == reflect.String {
 			fieldNames := []string{}
 			for name := range ttype.Fields() {
 				fieldNames = append(fieldNames, name)
@@ -757,7 +757,12 @@ func astFromValue(value interface{}, ttype Type) ast.Value {
 			sort.Strings(fieldNames)
 			fields := []*ast.ObjectField{}
 			for _, name := range fieldNames {
-				fieldAST := astFromValue(valueMap[name], ttype.Fields()[name].Type)
+				// maps of any element type: map[string]interface{}, map[string]int, ...
+				var fieldValue interface{}
+				if v := valueVal.MapIndex(reflect.ValueOf(name).Convert(valueVal.Type().Key())); v.IsValid() {
+					fieldValue = v.Interface()
+				}
+				fieldAST := astFromValue(fieldValue, ttype.Fields()[name].Type)
 				if fieldAST != nil {
 					fields = append(fields, ast.NewObjectField(&ast.ObjectField{
 						Name:  ast.NewName(&ast.Name{Value: name}),
